@@ -27,8 +27,13 @@ def char_uuid(iid):
     return "0000FF%02X" % iid + UUID_BASE
 
 
-def model_db():
-    return [{"aid": 1, "services": [
+SVC_PROTO = "000000A2" + UUID_BASE
+
+
+def model_db(proto=False):
+    extra = [{"iid": 30, "type": SVC_PROTO, "characteristics": [
+        {"iid": 31, "type": "000000A5" + UUID_BASE, "perms": ["pr"], "format": "data"}, {"iid": 32, "type": "00000037" + UUID_BASE, "perms": ["pr"], "format": "string"}]}] if proto else []
+    return [{"aid": 1, "services": extra + [
         {"iid": 1, "type": SVC_PAIRING, "characteristics": [
             {"iid": 2, "type": CH_PAIR_SETUP, "perms": ["pr", "pw"], "format": "tlv8"}, {"iid": 3, "type": CH_PAIR_VERIFY, "perms": ["pr", "pw"], "format": "tlv8"},
             {"iid": 5, "type": CH_PAIRING_FEATURES, "perms": ["pr"], "format": "uint8"}, {"iid": 4, "type": CH_PAIRINGS, "perms": ["pr", "pw"], "format": "tlv8"}]},
@@ -38,7 +43,7 @@ def model_db():
 
 
 class BleWorld:
-    def __init__(self, loop, k=0, acc_id="AA:BB:CC:DD:EE:FF", ios_id="ios-ble-controller", att_payload=155, cache=None):
+    def __init__(self, loop, k=0, acc_id="AA:BB:CC:DD:EE:FF", ios_id="ios-ble-controller", att_payload=155, cache=None, proto=False, disconnected_events=()):
         self.loop = loop
         seed = refhap.H(b"bleworld", str(k).encode())
         self.ident = RefIdentity(acc_id.encode(), seed[:32])
@@ -53,9 +58,17 @@ class BleWorld:
         self.clients = []
         self.on_client = None          # callable(client): configure every new link (faults of the stack)
         self.connect_fail = 0
+        if proto:
+            # a HAP Protocol Information service (service signature characteristic: the protocol-configuration requests go there)
+            self.acc.service_iids[SVC_PROTO] = 30
         if cache is None:             # (a caller that brings its own cache decides what it holds)
             cache = CharacteristicCacheMemory()
-            cache.async_create_or_update_map(acc_id, 1, model_db(), None, 1)
+            db = model_db(proto)
+            for s_ in db[0]["services"]:
+                for c_ in s_["characteristics"]:
+                    if c_["iid"] in disconnected_events:
+                        c_["disconnected_events"] = True
+            cache.async_create_or_update_map(acc_id, 1, db, None, 1)
         self.controller = BleController(char_cache=cache)
         self.pairing_data = {"AccessoryPairingID": acc_id, "AccessoryLTPK": self.ident.ltpk.hex(), "iOSPairingId": ios_id, "iOSDeviceLTSK": self.ios_seed.hex(),
                              "iOSDeviceLTPK": self.ios_ltpk.hex(), "AccessoryAddress": "00:11:22:33:44:55", "Connection": "BLE"}
